@@ -2,6 +2,7 @@
 import concurrent.futures
 import json
 import os
+import re
 import time
 
 import vf
@@ -106,10 +107,8 @@ def run_stage(acc, binary, s):
         if s.modes:
             args += ["-modes", s.modes]
         args += s.extra_args or []
-        vf.run_harness(binary, args)
-        sm = json.load(open(summ))
+        sm, fs = replay_with_crash_recovery(binary, args, cases, d)
         acc.add_summary(sm)
-        fs = vf.load_failures(fail)
         for f in fs:
             f["prop"] = acc.prop
             f["stage"] = s.name
@@ -117,6 +116,61 @@ def run_stage(acc, binary, s):
         vf.log("[%s] stage %-22s tlc: %d states %d cases (%ss%s)  real executions: %d  failures: %d" % (
             acc.prop, s.name, st.get("distinct", 0), st.get("cases", 0), st.get("wall_s"),
             ", cached" if st.get("cached") else "", sm["executions"], sm["failures"]))
+
+
+def replay_with_crash_recovery(binary, args, cases, d):
+    """Run a replay driver.  If the harness process dies (a fatal error of the Go runtime cannot be recovered
+    in-process, e.g. a stack overflow while the library formats a cyclic value), the case it died on is
+    re-executed alone in a fresh process: if it dies again the case is recorded as a failing real execution
+    (why = process-crash) and the replay resumes after it.  A death that does not reproduce is an
+    infrastructure failure."""
+    fail, summ, prog = os.path.join(d, "fail.ndjson"), os.path.join(d, "sum.json"), os.path.join(d, "progress")
+    total, failures, start, crashes = None, [], 0, 0
+    while True:
+        try:
+            vf.run_harness(binary, args + ["-from", str(start), "-progress", prog])
+            crashed = None
+        except vf.Infra as e:
+            try:
+                crashed = int(open(prog).read().strip())
+            except Exception:
+                raise e
+            if "fatal error" not in str(e) and "stack overflow" not in str(e) and "signal" not in str(e):
+                raise
+            try:
+                vf.run_harness(binary, args + ["-only", str(crashed), "-progress", prog + ".1"])
+                raise vf.Infra("the harness died on case %d but not when that case was re-executed alone\n%s" % (crashed, e))
+            except vf.Infra as e2:
+                if "re-executed alone" in str(e2):
+                    raise
+            crashes += 1
+            if crashes > 8:
+                raise vf.Infra("the harness keeps dying (%d cases)\n%s" % (crashes, e))
+            line = None
+            with open(cases) as fh:
+                for i, l in enumerate(x for x in fh if x.strip()):
+                    if i == crashed:
+                        line = l
+                        break
+            c = json.loads(line) if line else {}
+            m = re.search(r"fatal error: [^\n]*", str(e))
+            failures.append({"why": "process-crash", "src": c.get("src"), "mode": "any", "case_index": crashed,
+                             "got": {"panic": (m.group(0) if m else "the process died") + " (reproduced in a fresh process)"}})
+        part_fail = vf.load_failures(fail)
+        sm = json.load(open(summ)) if crashed is None else None
+        if crashed is None:
+            failures += part_fail
+            if total is None:
+                total = sm
+            else:
+                for k in ("cases", "executions", "programs", "failures", "nontrivial"):
+                    total[k] += sm[k]
+            total["failures"] = len(failures)
+            total["cases"] += crashes if crashes and total is sm else 0
+            return total, failures
+        # partial results of the dead process: only its failure file survives; count the cases it got through
+        failures += part_fail
+        start = crashed + 1
 
 
 def prefetch(stages):
@@ -286,6 +340,12 @@ def stages_C05(tier):
     out.append(Stage("oversize", "MC_VM",
                      mc_vm_cfg("oversize", 4 if tier == "quick" else 5, operand_mod=32, emit="ovcases", invariants=("EmitOv",)),
                      "C05OV", modes="struct:noopt,struct:opt,none:noopt"))
+    # constant pool: a literal of 65534..65536 distinct constants followed by constants the optimizer creates
+    out.append(Stage("ovconst", "MC_Expr", gen_cfg("ovconst", 8, emit="ovconst"), "C05OC", modes="struct:opt,struct:noopt",
+                     extra_args=(["-ocstride", "9", "-ocsizes", "one"] if tier == "quick" else ["-ocstride", "2"])))
+    # every successful real run of the evaluation corpora ends clean (nothing left on the stack, no scope open)
+    for fam, n in C01_FAMILIES[tier]:
+        out.append(Stage("clean-%s-n%d" % (fam, n), "MC_Expr", gen_cfg(fam, n), "C05CE", modes="struct:noopt,struct:opt"))
     ev = 7 if tier == "quick" else 2
     for fam, n in [("builtin", 5), ("mixed", 4), ("logic", 4), ("coll", 4), ("calls", 5), ("access", 4)]:
         out.append(trace_stage("trace-%s" % fam, fam, n, ev, max_runs=3000 if tier == "quick" else 20000))
@@ -297,9 +357,13 @@ C05_RULE = ("(a) TLC model checking of MC_VM: every expression of each family up
             "compiler's bytes compared with the specification's compiler (drift diagnostic); (c) real runs recorded "
             "through the verif hook and validated event by event against VM!Step on the real bytes: verdict-bearing "
             "are a pop on an empty stack, an unclean exit (values or scopes left), an ill-formed real program "
-            "(VM!WellFormed evaluated by TLC on the real bytes and constants); (d) oversize: every expression of family "
+            "(VM!WellFormed evaluated by TLC on the real bytes and constants); (c') every successful real run of every "
+            "case of the evaluation corpora, on a caller-owned VM, leaves no value on the stack and no scope open; (d) oversize: every expression of family "
             "'oversize' (operand range 32) containing a literal longer than the range, inflated by the harness to 23000 "
-            "elements so the same jump offsets exceed 65535: Compile must reject it or its runs must conform; "
+            "elements so the same jump offsets exceed 65535: Compile must reject it or its runs must conform; (e) constant "
+            "pool: every expression of family 'ovconst' containing a literal of 12 distinct constants, inflated to 65534, "
+            "65535 and 65536 distinct integers and followed by ranges the optimizer folds into constants: Compile must "
+            "reject it or every run must conform; "
             "non-trivial = a validated real run or an oversized shape")
 
 
